@@ -134,6 +134,9 @@ func (t *Tester) Reset()                      {}
 
 var _ liveness.Tester = (*Tester)(nil)
 
+// PrefixKeyRotation makes Manager give the prefix transport two private keys, the clients' one second.
+var PrefixKeyRotation bool
+
 // Transports selects which real transports to enable.
 type Transports struct{ Min, Prefix, Obfs4 bool }
 
@@ -150,7 +153,15 @@ func Manager(conf *lib.RegConfig, sel *phantoms.PhantomIPSelector, lt liveness.T
 		_ = rm.AddTransport(pb.TransportType_Min, min.Transport{})
 	}
 	if tr.Prefix {
-		pt, err := prefix.Default([][32]byte{StationPriv})
+		keys := [][32]byte{StationPriv}
+		if PrefixKeyRotation {
+			// a station in the middle of a key rotation: another key first, the one clients use second
+			var other [32]byte
+			o := sha256.Sum256([]byte("vfix other station key"))
+			copy(other[:], o[:])
+			keys = [][32]byte{other, StationPriv}
+		}
+		pt, err := prefix.Default(keys)
 		if err != nil {
 			panic(err)
 		}
